@@ -1299,7 +1299,7 @@ class _TriangularDynamicsService(_LibrationDynamicsService):
             abs_omega = abs(omega)
             found_group = False
             for key in freq_groups:
-                if np.isclose(abs_omega, key, rtol=1e-10):
+                if np.isclose(abs_omega, key, rtol=1e-10, atol=0.0):
                     freq_groups[key].append(omega)
                     found_group = True
                     break
@@ -1314,7 +1314,7 @@ class _TriangularDynamicsService(_LibrationDynamicsService):
 
         planar_omegas = []
         for key, omegas_list in freq_groups.items():
-            if not np.isclose(key, vertical_group_key, rtol=1e-10):
+            if not np.isclose(key, vertical_group_key, rtol=1e-10, atol=0.0):
                 planar_omegas.extend(omegas_list)
         
         planar_freq_groups = {}
@@ -1322,7 +1322,7 @@ class _TriangularDynamicsService(_LibrationDynamicsService):
             abs_omega = abs(omega)
             found_group = False
             for key in planar_freq_groups:
-                if np.isclose(abs_omega, key, rtol=1e-10):
+                if np.isclose(abs_omega, key, rtol=1e-10, atol=0.0):
                     planar_freq_groups[key].append(omega)
                     found_group = True
                     break
